@@ -30,7 +30,7 @@ static int n_alloc, n_free, bad_free, bad_pool, alloc_overflow;
 static parsec_thread_mempool_t POOLS[VP_NDATA + 1];
 static parsec_thread_mempool_t *ent_pool[NENT];
 static unsigned the_nbdata;
-static void *vp_entry_alloc(parsec_thread_mempool_t *mp)
+static void *vp_entry_alloc_impl(parsec_thread_mempool_t *mp)
 {
     int k = __sync_fetch_and_add(&n_alloc, 1);
     if(mp != &POOLS[the_nbdata]) bad_pool = 1;                  /* entries of a repo with nbdata flows come from pool [nbdata] */
@@ -42,7 +42,7 @@ static void *vp_entry_alloc(parsec_thread_mempool_t *mp)
     for(int i = 0; i < VP_NDATA; i++) e->data[i] = (struct parsec_data_copy_s*)e;
     return e;
 }
-static void vp_entry_free(parsec_thread_mempool_t *mp, void *elt)
+static void vp_entry_free_impl(parsec_thread_mempool_t *mp, void *elt)
 {
     int k = -1;
     if(elt == &ENT0) k = 0; else if(elt == &ENT1) k = 1; else if(elt == &ENT2) k = 2; else if(elt == &ENT3) k = 3;
@@ -51,6 +51,17 @@ static void vp_entry_free(parsec_thread_mempool_t *mp, void *elt)
     if(ent_pool[k] != mp) bad_pool = 1;                          /* returned to the pool it came from */
     __sync_fetch_and_add(&ent_free[k], 1);
 }
+/* Engine S: the stubs' internals are not code under test: they are reached through function pointers, which the
+ * sequentializer executes atomically (no yield points inside a stub; the bucket LOCK stays a real, interleaved spin lock) */
+#ifdef VP_SEQIR
+static void *(*volatile fp_alloc)(parsec_thread_mempool_t*) = vp_entry_alloc_impl;
+static void (*volatile fp_free)(parsec_thread_mempool_t*, void*) = vp_entry_free_impl;
+static inline void *vp_entry_alloc(parsec_thread_mempool_t *mp) { return fp_alloc(mp); }
+static inline void vp_entry_free(parsec_thread_mempool_t *mp, void *elt) { fp_free(mp, elt); }
+#else
+static inline void *vp_entry_alloc(parsec_thread_mempool_t *mp) { return vp_entry_alloc_impl(mp); }
+static inline void vp_entry_free(parsec_thread_mempool_t *mp, void *elt) { vp_entry_free_impl(mp, elt); }
+#endif
 #define parsec_thread_mempool_allocate vp_entry_alloc
 #define parsec_thread_mempool_free vp_entry_free
 
@@ -66,12 +77,24 @@ void parsec_hash_table_lock_bucket_handle(parsec_hash_table_t *ht, parsec_key_t 
 { (void)ht; parsec_atomic_lock(&slot_lock); handle->key = key; handle->hash64 = (uint64_t)key; handle->hash = 0; if(key != THE_KEY) bad_key = 1; }
 void parsec_hash_table_unlock_bucket_handle_impl(parsec_hash_table_t *ht, const parsec_key_handle_t *handle, const char *file, int line)
 { (void)ht; (void)handle; (void)file; (void)line; if(slot_lock == 0) bad_unlock = 1; parsec_atomic_unlock(&slot_lock); }
-void *parsec_hash_table_nolock_find_handle(parsec_hash_table_t *ht, const parsec_key_handle_t *handle)
+static void *st_find(parsec_hash_table_t *ht, const parsec_key_handle_t *handle)
 { (void)ht; if(slot_lock == 0) bad_nolock = 1; if(handle->key != THE_KEY) bad_key = 1; return slot ? (void*)((char*)slot - slot_off) : NULL; }
-void parsec_hash_table_nolock_insert_handle(parsec_hash_table_t *ht, const parsec_key_handle_t *handle, parsec_hash_table_item_t *item)
+static void st_insert(parsec_hash_table_t *ht, const parsec_key_handle_t *handle, parsec_hash_table_item_t *item)
 { (void)ht; if(slot_lock == 0) bad_nolock = 1; if(slot != NULL) bad_insert = 1; if(item->key != handle->key) bad_key = 1; slot = item; }
-void *parsec_hash_table_nolock_remove_handle(parsec_hash_table_t *ht, const parsec_key_handle_t *handle)
+static void *st_remove(parsec_hash_table_t *ht, const parsec_key_handle_t *handle)
 { (void)ht; (void)handle; if(slot_lock == 0) bad_nolock = 1; parsec_hash_table_item_t *it = slot; slot = NULL; return it ? (void*)((char*)it - slot_off) : NULL; }
+#ifdef VP_SEQIR
+static void *(*volatile fp_find)(parsec_hash_table_t*, const parsec_key_handle_t*) = st_find;
+static void (*volatile fp_insert)(parsec_hash_table_t*, const parsec_key_handle_t*, parsec_hash_table_item_t*) = st_insert;
+static void *(*volatile fp_remove)(parsec_hash_table_t*, const parsec_key_handle_t*) = st_remove;
+void *parsec_hash_table_nolock_find_handle(parsec_hash_table_t *ht, const parsec_key_handle_t *handle) { return fp_find(ht, handle); }
+void parsec_hash_table_nolock_insert_handle(parsec_hash_table_t *ht, const parsec_key_handle_t *handle, parsec_hash_table_item_t *item) { fp_insert(ht, handle, item); }
+void *parsec_hash_table_nolock_remove_handle(parsec_hash_table_t *ht, const parsec_key_handle_t *handle) { return fp_remove(ht, handle); }
+#else
+void *parsec_hash_table_nolock_find_handle(parsec_hash_table_t *ht, const parsec_key_handle_t *handle) { return st_find(ht, handle); }
+void parsec_hash_table_nolock_insert_handle(parsec_hash_table_t *ht, const parsec_key_handle_t *handle, parsec_hash_table_item_t *item) { st_insert(ht, handle, item); }
+void *parsec_hash_table_nolock_remove_handle(parsec_hash_table_t *ht, const parsec_key_handle_t *handle) { return st_remove(ht, handle); }
+#endif
 void *parsec_hash_table_find(parsec_hash_table_t *ht, parsec_key_t key)
 { (void)ht; (void)key; parsec_atomic_lock(&slot_lock); void *r = slot ? (void*)((char*)slot - slot_off) : NULL; parsec_atomic_unlock(&slot_lock); return r; }
 void parsec_hash_table_for_all(parsec_hash_table_t *ht, parsec_hash_elem_fct_t fct, void *cb_data) { (void)ht; (void)fct; (void)cb_data; }
